@@ -3,5 +3,6 @@ CONSTANTS MaxL = 7
           Cfgs <- GCfgs
           ZeroBudget = 2
           Limit = 2096896
+          MaxHeld = 0
 INVARIANTS Emit2 SizeExact Lossless
 CHECK_DEADLOCK FALSE
